@@ -110,7 +110,7 @@ META = {
                 "discarding state; close() reports Ok for a clean close whatever was in flight and the peer's error when it sent one. "
                 "The model is run against the real ConnectionEngine (tokio current-thread runtime, paused clock, in-memory duplex, "
                 "scripted byte-level peer, one stimulus per quiescence barrier) on random and enumerated scripts every run, and the "
-                "property is also checked directly on the observed traces.",
+                "property is also checked directly on the observed traces. C12_any_frame_on_open_connection: the same lifecycle model driven by the BYTES of a frame (decoded and classified by the model: Conn/WireEvents.v) - compared with the real engine on raw frames every run.",
         "design_ref": "DESIGN.md section 4, C12",
         "note": "Trusted: Coq kernel, extraction, the scripted-peer harness (barrier = 1 ms of paused time). Sessions are not part of "
                 "this model (C13). Fixed defects: busy-spin after close (cbb5a70), peer close before open waited for twice (a23b605), "
@@ -241,7 +241,7 @@ META = {
         "text": "Decided by exploration with a direct oracle: client and listener in 13 states x a catalogue of 180 hostile stimuli (framing, bodies, protocol violations) x 3 "
                 "follow-ups, plus mutated frames: no panic, no stack overflow, no pending call after EOF, bounded time / response / allocation per frame, an error visible to "
                 "the application, other connections unaffected. The theorems that bear on it are those of C04 (the decoder model is total, never panics, consumes a prefix) and "
-                "the totality of the lifecycle step functions of C12/C13/C19; there is no Coq model of the engines under arbitrary frames. The frame decoder as a whole (header, dispatch on the descriptor, typed field loop, payload: Frame/AmqpFrame.v) is proved total - no panic for any bytes, fuel length+1 suffices - and is run against the real FrameDecoder on generated, re-headed, truncated and random frames every run.",
+                "the totality of the lifecycle step functions of C12/C13/C19; there is no Coq model of the engines under arbitrary frames. The frame decoder as a whole (header, dispatch on the descriptor, typed field loop, payload: Frame/AmqpFrame.v) is proved total - no panic for any bytes, fuel length+1 suffices - and is run against the real FrameDecoder on generated, re-headed, truncated and random frames every run. C15_any_frame_on_open_connection composes the frame decoder model with the connection lifecycle model: for EVERY byte string in a frame an open connection either ignores it (heartbeat), closes with an error and discards, answers the peer's close, or stops on a transport error - and writes nothing more afterwards; run against the real engine on raw frames every run (c12 pw events).",
         "design_ref": "DESIGN.md section 4, C15",
         "note": "Partial: exploration, not proof, for the engine-level clauses. Fixed defects found here: u32 overflow panic on a list count of 0xffffffff, 2^32-iteration loop "
                 "on a disposition range, session error lost when the peer does not answer the end, listener handle / channel hijack by a second attach / begin. Known "
